@@ -247,6 +247,11 @@ Proof.
     eapply map_upd_same; [exact E|reflexivity].
   - destruct (forever_next cur) as [r c]. inversion H; subst. cbn [set_obj heap vecs]. split; [|reflexivity].
     eapply map_upd_same; [exact E|reflexivity].
+  - destruct (vec_next cards pos) as [r c]. inversion H; subst. cbn [set_obj heap vecs]. split; [|reflexivity].
+    eapply map_upd_same; [exact E|reflexivity].
+  - inversion H; subst. split; reflexivity.
+  - inversion H; subst. split; reflexivity.
+  - inversion H; subst. split; reflexivity.
   - destruct (obj_next k st inner) as [[w st1]|] eqn:E1; [|discriminate]. inversion H; subst. eapply IH; eauto.
   - destruct (obj_next k st inner) as [[w st1]|] eqn:E1; [|discriminate].
     destruct (IH _ _ _ _ E1) as [A1 A2].
@@ -467,6 +472,7 @@ Definition veclike (st : store) (o : iobj) : option (list value * nat * (nat -> 
   | OVecIter vid cur => Some (get_vec st vid, cur, OVecIter vid)
   | OTupIter xs cur => Some (xs, cur, OTupIter xs)
   | OScript xs cur => Some (xs, cur, OScript xs)
+  | ODeck xs cur => Some (xs, cur, ODeck xs)
   | _ => None
   end.
 
@@ -599,7 +605,8 @@ Print Assumptions fresh_iter_rep.
 (* ------------------------------------------------------------------ *)
 (* independence of iterators                                            *)
 (* ------------------------------------------------------------------ *)
-Definition is_native (o : iobj) : bool := match o with OMap _ _ | OFilter _ _ => false | _ => true end.
+Definition is_native (o : iobj) : bool :=
+  match o with OMap _ _ | OFilter _ _ | OBag _ | OVBag _ | OChained _ _ => false | _ => true end.
 
 Lemma native_step_frame : forall k st id o v st', nth_error (heap st) id = Some o -> is_native o = true ->
   obj_next k st id = Some (v, st') ->
